@@ -509,7 +509,7 @@ func addExtraImports(prog string, f *ast.File, sigText string) string {
 		if name == "_" || name == "." || strings.Contains(head, "\""+path+"\"") {
 			continue
 		}
-		if regexp.MustCompile(`[^A-Za-z0-9_.]`+regexp.QuoteMeta(name)+`\.[A-Z]`).MatchString(sigText) {
+		if regexp.MustCompile(`[^A-Za-z0-9_.]` + regexp.QuoteMeta(name) + `\.[A-Z]`).MatchString(sigText) {
 			fmt.Fprintf(&extra, "\t%s%q\n", alias, path)
 		}
 	}
